@@ -8,8 +8,8 @@ LEAN_PROPS = "Dashu.Props.C03"
 LEAN_AUDIT = "Dashu.Audit.C03"
 USES_GEN = True
 READY = True
-GEN_PROPS = ["Dashu.Props.GenRound"]
-GEN_AUDIT = ["Dashu.Audit.GenRound"]
+GEN_PROPS = ["Dashu.Props.GenRound", "Dashu.Props.C03Link"]
+GEN_AUDIT = ["Dashu.Audit.GenRound", "Dashu.Audit.C03Link"]
 
 # ----------------------------------------------------------------------------- known-finding predicates
 # (called from known_findings.jsonl `py` conditions; each describes the input class of one defect,
@@ -35,7 +35,10 @@ def kf_long_operand(op, args):
     mul/sqr/cubic pre-shrink operands longer than 2p (3p) digits and div pre-shrinks a dividend longer
     than rhs.digits + p with the rounding mode of the context (double rounding, lost Inexact flag);
     add/sub of operands longer than p can cancel more digits than the single guard digit of
-    repr_round_sum."""
+    repr_round_sum.
+    Lean twins (Props/C03.lean): MulShrinkRegion, SqrShrinkRegion, CubicShrinkRegion, DivShrinkRegion,
+    AddLongRegion; outside them `*_contract_outside_region` prove the full contract, inside
+    `mul_preshrink_counterexample`, `div_preshrink_counterexample`, `add_guard_digit_counterexample`."""
     p = _p(op, args)
     if p == 0:
         return False
@@ -244,17 +247,21 @@ REFINED = ["Context::repr_round", "Context::mul/sqr/cubic (operands <= 2p/3p dig
            "Context::sqrt (scaling + sqrt_rem rounding + half test)",
            "Context::add / sub for operands that fit p: repr_add_large_small / repr_add_small_large (4 alignment branches), "
            "repr_round_sum (3 re-alignment branches)"]
-FRONTIER = ["utils::shl_digits / shr_digits per-base fast paths (modelled as *B^k and truncating /B^k)",
-            "UBig::sqrt_rem (modelled as Nat.sqrt; C12)",
-            "f32 estimate digits_ub / digits_lb: parameters with enclosure hypotheses (driver replica checked on every operand)",
-            "clauses `x representable in p digits => exact` and `<= p+1 significant digits`: evaluated per case by the driver, not theorems"]
+FRONTIER = ["UBig::sqrt_rem: a parameter with its C12 contract (SqrtRemOk); Props/C03Link composes Context::sqrt with builder-nt's mirrored "
+            "sqrtRemRepr (whose word/double-word primitive and Karatsuba kernel are frontier in C12) and proves it equal to the Nat.sqrt "
+            "instance the driver runs",
+            "f32 estimate digits_ub / digits_lb: parameters with enclosure hypotheses (driver replica checked on every operand)"]
 EXPLANATION = ("Lean theorems over Rat for every base >= 2, precision >= 1, mode and operand: repr_round satisfies the rounding contract; "
                "mul/sqr/cubic follow from it (operands up to 2p/3p digits, i.e. all that fit p); add/sub for ALL operands that fit p - "
                "zero operands, equal exponents and the four alignment branches (far-apart with the sticky stand-in, two splitting "
                "branches, full alignment) composed with the three re-alignment branches of repr_round_sum, for every sound digits_ub "
                "estimator; repr_div / inv via the quotient-remainder identity, the digit analysis of its three re-alignment cases and "
                "round_ratio; sqrt (comparisons with the irrational root stated on squares) for the scaling repaired by 92fc29e; the "
-               "documented panics of div and sqrt. Context methods on Reprs LONGER than the working length violate the contract in the "
+               "documented panics of div and sqrt; the two closing clauses as theorems: a true result representable in p digits is "
+               "returned exactly and flagged Exact (consequence of the contract: the result lies on the grid of the error unit), and "
+               "no result has more than p+1 digits - exactly p+1 only for an effective subtraction of operands with different "
+               "exponents (guard digit) and for quotients whose significand quotient is 0 or has >= p digits; mul/sqr/cubic/sqrt "
+               "never exceed p. Context methods on Reprs LONGER than the working length violate the contract in the "
                "code as it is (pre-shrink double rounding in mul/sqr/cubic/div, single guard digit in add/sub): recorded findings, "
                "partial theorems carry the excluding hypothesis, with a counterexample theorem. Beside every model result the driver "
                "evaluates the contract in exact rational arithmetic.")
@@ -272,6 +279,5 @@ LEVEL_NOTE = ("Trusted: Lean kernel; axioms propext/Classical.choice/Quot.sound;
               "rounding and Exact flag 92fc29e, base-2 far-apart addition tie 0d97e26, sub from zero d197d6e) stay as regression "
               "cases in corpus/C03; the remaining ones (pre-shrink double rounding in mul/sqr/cubic/div and deep cancellation in "
               "add/sub, all only for Reprs longer than the working length, i.e. outside `operands that fit p`) are recorded in "
-              "known_findings.jsonl. The two closing clauses of the property (representable => exact, <= p+1 digits) are evaluated "
-              "per case, not proved.")
+              "known_findings.jsonl.")
 TECHNIQUE = "Lean 4 proofs over a mirrored model + executable rational contract check + differential correspondence"
